@@ -30,6 +30,7 @@ type Frame struct {
 	variants  map[int][]*T // loop index -> variant at the head
 	heads     map[int]*Env // loop index -> environment at the last visit of the head
 	binds     map[string]Val
+	implSlices map[int][]*cell
 	bindTypes map[string]types.Type
 	call      ssa.CallInstruction // call site in the parent frame (inlined frames)
 	site      string              // obligation name prefix for inlined code
@@ -45,11 +46,19 @@ type State struct {
 	alloc    *T
 	alloc0   *T
 	pre      *State
-	epoch    int
+	events   []string // havoc events that may affect heap arrays not yet materialised ("*" or key prefix)
 	dead     bool
 	depth    int
 	nonnil   map[string]bool
 	iters    []iterState
+	unfilled []unfilledSlice
+	pending  []pendingInit
+	instTerms []*T // terms at which quantified facts are instantiated by hand (slice indices, map keys)
+}
+
+type pendingInit struct {
+	ref   *T
+	field string
 }
 
 type iterState struct {
@@ -82,8 +91,11 @@ func (st *State) cellGet(c *cell) Val {
 func (st *State) cellSet(c *cell, v Val) { st.cellVals[c] = v }
 
 func (st *State) clone() *State {
-	n := &State{alloc: st.alloc, alloc0: st.alloc0, pre: st.pre, epoch: st.epoch, depth: st.depth}
+	n := &State{alloc: st.alloc, alloc0: st.alloc0, pre: st.pre, events: append([]string(nil), st.events...), depth: st.depth}
 	n.iters = append([]iterState(nil), st.iters...)
+	n.unfilled = append([]unfilledSlice(nil), st.unfilled...)
+	n.pending = append([]pendingInit(nil), st.pending...)
+	n.instTerms = append([]*T(nil), st.instTerms...)
 	n.nonnil = make(map[string]bool, len(st.nonnil))
 	for k := range st.nonnil {
 		n.nonnil[k] = true
@@ -135,7 +147,7 @@ func (st *State) clone() *State {
 
 // snapshot copies what old(...) needs: heap and cell values.
 func (st *State) snapshot() *State {
-	n := &State{alloc: st.alloc, alloc0: st.alloc0, pre: st.pre, epoch: st.epoch}
+	n := &State{alloc: st.alloc, alloc0: st.alloc0, pre: st.pre, events: append([]string(nil), st.events...)}
 	n.heap = make(map[string]*T, len(st.heap))
 	for k, v := range st.heap {
 		n.heap[k] = v
@@ -211,6 +223,9 @@ type Exec struct {
 	kinds      map[string]bool // obligation kinds to generate (nil = all)
 	autoAxioms []string
 	effCache   map[string]*FuncContract
+	nnElems    map[string]bool // element types whose slices never hold nil
+	nnValues   map[string]bool // map types whose values are never nil
+	nnFields   map[string]bool // "pkg.Struct.field" never nil
 }
 
 func NewExec(ld *Loaded, cs *Contracts) *Exec {
@@ -231,7 +246,52 @@ func NewExec(ld *Loaded, cs *Contracts) *Exec {
 		x.ghostFields[key] = append(x.ghostFields[key], ghostLeaf{g.Field, ls[0].sort, t})
 	}
 	x.leafCache = map[string][]leaf{}
+	x.nnElems, x.nnValues, x.nnFields = map[string]bool{}, map[string]bool{}, map[string]bool{}
+	for _, d := range cs.NonNil {
+		switch d.Kind {
+		case "elems":
+			t := ld.resolveTypeString(d.Pkg, d.What)
+			if sl, ok := t.(*types.Slice); ok {
+				x.nnElems[typeKey(sl.Elem())] = true
+			} else {
+				x.errors = append(x.errors, d.Where+": nonnil elems needs a slice type")
+			}
+		case "values":
+			t := ld.resolveTypeString(d.Pkg, d.What)
+			if t == nil {
+				x.errors = append(x.errors, d.Where+": nonnil values: unknown type")
+			} else {
+				x.nnValues[typeKey(t)] = true
+			}
+		case "field":
+			x.nnFields[d.What] = true
+		}
+	}
 	return x
+}
+
+func nonNilVal(v Val) *T {
+	switch t := v.(type) {
+	case *IfaceV:
+		return Ne(t.Tag, IntC(0))
+	case *PtrV:
+		if t.Kind == PObj {
+			return Ne(t.Ref, IntC(0))
+		}
+		return TTrue
+	case *T:
+		if t.Sort == SInt {
+			return Ne(t, IntC(0))
+		}
+	case *FuncV:
+		return Ne(t.Fn, IntC(0))
+	}
+	return TTrue
+}
+
+type unfilledSlice struct {
+	base, n *T
+	elemT   types.Type
 }
 
 func (x *Exec) warn(format string, a ...any) {
@@ -496,7 +556,7 @@ func (x *Exec) emit(st *State, name, kind string, goal *T, vals []*T) {
 		x.trivial[name]++
 		return
 	}
-	q := &Query{Name: name, Facts: append([]*T(nil), st.facts...), Goal: goal, Vals: vals, Axioms: x.autoAxioms}
+	q := &Query{Name: name, Facts: instantiateFacts(st.facts, st.instTerms), Goal: goal, Vals: vals, Axioms: x.autoAxioms}
 	x.obligs = append(x.obligs, &Oblig{Name: name, Func: x.topKey, Kind: kind, Query: q})
 	if kind != "frame" {
 		st.assume(goal)
@@ -715,9 +775,9 @@ func (x *Exec) Verify(f *ssa.Function, c *FuncContract) {
 				st.assume(Ne(x.ptrRef(v), IntC(0)))
 				st.nonnil[x.ptrRef(v).String()] = true
 			}
-			// family contracts call the receiver "this"
-			params["this"] = v
-			ptypes["this"] = p.Type()
+			// family contracts call the receiver "this" (as the interface value)
+			params["this"] = x.makeIface(st, v, p.Type())
+			ptypes["this"] = x.ld.anyType()
 		}
 	}
 	for _, fv := range f.FreeVars {
@@ -725,6 +785,19 @@ func (x *Exec) Verify(f *ssa.Function, c *FuncContract) {
 		fr.regs[fv] = v
 	}
 	x.preEnv = &Env{x: x, st: pre, vars: params, types: ptypes, pkg: f.Pkg.Pkg, isPre: true, facts: st}
+	// program-wide invariants of package-level variables (established by package
+	// initialisation, preserved because no verified frame allows writing them)
+	if f.Name() != "init" {
+		for _, gi := range x.cs.GlobalInvs {
+			ge := &Env{x: x, st: pre, vars: map[string]Val{}, types: map[string]types.Type{}, pkg: x.ld.pkgByName[gi.Label], isPre: true, facts: st}
+			t, err := ge.evalBool(gi.Expr)
+			if err != nil {
+				x.errors = append(x.errors, fmt.Sprintf("%s: globalinv: %v", gi.Where, err))
+				continue
+			}
+			st.assume(t)
+		}
+	}
 	// modifies
 	x.mods = nil
 	x.checkMods = false
@@ -898,15 +971,60 @@ func (x *Exec) loopHead(st *State, fr *Frame, li *loopInfo) bool {
 	if x.topC != nil {
 		ls = x.topC.Loops[li.index]
 	}
-	if ls == nil || (len(ls.Invariants) == 0 && ls.Decreases == nil) {
-		return false // unrolled
+	if ls == nil || (len(ls.Invariants) == 0 && ls.Decreases == nil && !ls.Cut) {
+		// range loops are cut automatically (implicit invariant: the hidden index is >= -1)
+		if strings.HasPrefix(li.head.Comment, "rangeindex.loop") || strings.HasPrefix(li.head.Comment, "rangeiter.loop") {
+			auto := &LoopSpec{Cut: true}
+			if ls != nil {
+				auto.Uses = ls.Uses
+			}
+			if strings.HasPrefix(li.head.Comment, "rangeindex.loop") {
+				auto.Invariants = []Clause{{Label: "range-index", Expr: "rangeindex >= -1", Where: "implicit"}}
+			}
+			ls = auto
+		} else {
+			return false // unrolled
+		}
 	}
 	env := x.envFor(st, fr)
 	fromInside := fr.prev != nil && li.body[fr.prev.Index]
 	if !fromInside {
 		x.checkClauses(st, env, ls.Invariants, "inv-init", x.topKey, fmt.Sprintf("loop%d", li.index), false)
+		// implicit invariants: a local slice that is nil or freshly allocated when the loop
+		// is entered stays so (checked like any other invariant)
+		type implInv struct {
+			c *cell
+		}
+		var impl []implInv
+		if x.checkMods {
+			for al := range li.cells {
+				c := fr.cells[al]
+				if c == nil {
+					continue
+				}
+				if sv, ok := st.cellVals[c].(*SliceV); ok {
+					if (sv.Base.IsInt() && sv.Base.I.Sign() == 0) || st.nonnil[sv.Base.String()] {
+						impl = append(impl, implInv{c})
+					}
+				}
+			}
+		}
+		nm := map[int][]*cell{}
+		for k, v := range fr.implSlices {
+			nm[k] = v
+		}
+		nm[li.index] = nil
+		for _, ii := range impl {
+			nm[li.index] = append(nm[li.index], ii.c)
+		}
+		fr.implSlices = nm
 		// havoc
 		x.havocLoop(st, fr, li)
+		for _, c := range fr.implSlices[li.index] {
+			if sv, ok := st.cellVals[c].(*SliceV); ok {
+				st.assume(Or(Eq(sv.Base, IntC(0)), Ge(sv.Base, st.alloc0)))
+			}
+		}
 		env = x.envFor(st, fr)
 		for _, u := range ls.Uses {
 			t, err := env.evalUse(u.Expr)
@@ -941,6 +1059,11 @@ func (x *Exec) loopHead(st *State, fr *Frame, li *loopInfo) bool {
 		return false
 	}
 	x.checkClauses(st, env, ls.Invariants, "inv-keep", x.topKey, fmt.Sprintf("loop%d", li.index), false)
+	for _, c := range fr.implSlices[li.index] {
+		if sv, ok := st.cellVals[c].(*SliceV); ok {
+			x.emit(st, fmt.Sprintf("%s/inv-keep:local-slice-fresh-or-nil.%s@loop%d", x.topKey, c.name, li.index), "inv-keep", Or(Eq(sv.Base, IntC(0)), Ge(sv.Base, st.alloc0)), nil)
+		}
+	}
 	if ls.Decreases != nil {
 		if v0, ok := fr.variants[li.index]; ok {
 			v, err := env.evalIntList(ls.Decreases.Expr)
@@ -1074,8 +1197,8 @@ func (x *Exec) havocPrefix(st *State, prefix string) {
 // later first access does not silently alias the pre-state array.
 func (x *Exec) materialize(st *State, prefix string) {
 	if !strings.HasPrefix(prefix, "F:") {
-		// for other families we rely on the epoch mechanism
-		st.epoch++
+		// arrays of this family not yet materialised get a fresh name when first touched
+		st.events = append(st.events, prefix)
 		return
 	}
 	rest := strings.TrimPrefix(prefix, "F:")
@@ -1096,7 +1219,7 @@ func (x *Exec) havocAll(st *State) {
 	for k, a := range st.heap {
 		st.heap[k] = Fresh("Hh!"+k, a.Sort)
 	}
-	st.epoch++
+	st.events = append(st.events, "*")
 }
 
 func (x *Exec) envFor(st *State, fr *Frame) *Env {
@@ -1115,6 +1238,10 @@ func (x *Exec) envFor(st *State, fr *Frame) *Env {
 	}
 	sort.Slice(ns, func(i, j int) bool { return ns[i].c.id < ns[j].c.id })
 	counts := map[string]int{}
+	isParam := map[string]bool{}
+	for _, p := range fr.fn.Params {
+		isParam[p.Name()] = true
+	}
 	for _, n := range ns {
 		name := n.al.Comment
 		var v Val
@@ -1140,12 +1267,21 @@ func (x *Exec) envFor(st *State, fr *Frame) *Env {
 		counts[name]++
 		vars[fmt.Sprintf("%s#%d", name, k)] = v
 		tys[fmt.Sprintf("%s#%d", name, k)] = t
+		if k > 0 && isParam[name] {
+			continue // a parameter name keeps meaning the parameter, not a shadowing local
+		}
 		vars[name] = v
 		tys[name] = t
 	}
 	for k, v := range fr.binds {
 		vars[k] = v
 		tys[k] = fr.bindTypes[k]
+	}
+	if fr.fn == x.top && x.preEnv != nil {
+		if tv, ok := x.preEnv.vars["this"]; ok {
+			vars["this"] = tv
+			tys["this"] = x.preEnv.types["this"]
+		}
 	}
 	return &Env{x: x, st: st, vars: vars, types: tys, pkg: fr.fn.Pkg.Pkg, old: x.preEnv, facts: st, heads: fr.heads}
 }
@@ -1211,4 +1347,93 @@ func (x *Exec) checkFrameGlobal(st *State, fr *Frame, in ssa.Instruction, g *ssa
 	}
 	name := x.topKey + "/frame:global-" + g.Pkg.Pkg.Name() + "." + g.Name() + "@" + x.siteName(fr, in)
 	x.emit(st, name, "frame", TFalse, nil)
+}
+
+func (st *State) noteInst(t *T) {
+	if t.IsInt() || t.IsBool() {
+		return
+	}
+	k := t.String()
+	for _, o := range st.instTerms {
+		if o.String() == k {
+			return
+		}
+	}
+	if len(st.instTerms) >= 12 {
+		st.instTerms = st.instTerms[1:]
+	}
+	st.instTerms = append(st.instTerms, t)
+}
+
+// instantiateFacts conjoins, to every single-variable universal fact, its instances at
+// the index/key terms used on this path (an equivalence: (forall x. P) <=> (forall x. P) && P[t]).
+// E-matching alone misses them because solvers normalise the arithmetic inside the triggers.
+func instantiateFacts(facts []*T, terms []*T) []*T {
+	out := make([]*T, len(facts))
+	if len(terms) == 0 {
+		copy(out, facts)
+		return out
+	}
+	for i, f := range facts {
+		if !containsForall(f) {
+			out[i] = f
+			continue
+		}
+		out[i] = instRewrite(f, terms)
+	}
+	return out
+}
+
+func containsForall(t *T) bool {
+	if t.Op != "app" {
+		return false
+	}
+	if t.Name == "forall" {
+		return true
+	}
+	if t.Name == "exists" {
+		return false
+	}
+	for _, a := range t.Args {
+		if containsForall(a) {
+			return true
+		}
+	}
+	return false
+}
+
+func instRewrite(t *T, terms []*T) *T {
+	if t.Op != "app" {
+		return t
+	}
+	if t.Name == "forall" {
+		n := len(t.Args) - 1
+		if n != 1 {
+			return t
+		}
+		v := t.Args[0]
+		parts := []*T{t}
+		for _, tm := range terms {
+			if tm.Sort != v.Sort || mentionsBound(tm) {
+				continue
+			}
+			parts = append(parts, Subst(t.Args[1], map[string]*T{v.Name: tm}))
+		}
+		return And(parts...)
+	}
+	if t.Name == "exists" {
+		return t
+	}
+	changed := false
+	args := make([]*T, len(t.Args))
+	for i, a := range t.Args {
+		args[i] = instRewrite(a, terms)
+		if args[i] != a {
+			changed = true
+		}
+	}
+	if !changed {
+		return t
+	}
+	return &T{Op: "app", Name: t.Name, Args: args, Sort: t.Sort}
 }
